@@ -41,6 +41,8 @@ PROPS["C09"] = {
         {"name": "C09_compression_is_G", "status": "proved", "statement": "forall 128-word blocks: fill_block(prev, ref, next, with_xor) = RFC 9106 G(prev, ref) (3.5: R = X xor Y, P on the 8 rows then the 8 columns of 16-byte registers, Z xor R; 3.6: P from GB with a + b + 2*lo32(a)*lo32(b) and rotations 32/24/16/63), xor next after the first pass -- the in-place rounds over the sixteen index lists against the matrix form"},
         {"name": "C09_pwhash_is_rfc9106", "status": "proved", "statement": "forall accepted (outlen, password, salt, opslimit, memlimit) with lengths < 2^32 and memlimit below about 2.2 TiB (7 * segment <= 2^32), alg in {Argon2i13, Argon2id13}: crypto_pwhash = Ok (Argon2Spec.argon2 alg opslimit (memlimit / 1024) outlen pwd salt [] []), the one-lane RFC 9106 function written over unbounded integers: H0, B[0], B[1] through H', every B[j] = G(B[(j-1) mod q], B[z]) (xor the old block after pass 0) in column order over 4 slices and t passes, J1 from the previous block or from the address blocks G(0, G(0, r||l||sl||m'||t||y||counter)), the tag H'(B[q-1])"},
         {"name": "C09_addresses_are_rfc", "status": "proved", "statement": "forall segments: entry k of the table generate_addresses builds = word k mod 128 of the RFC's address block with counter k / 128 + 1 (regenerated every 128 positions, counter from 1)"},
+        {"name": "C09_index_alpha_from_source", "status": "proved", "statement": "index_alpha as TRANSLATED from argon2.rs this run (reference-area size by pass / slice / lane / index, the two 64-bit multiplications, start position, modulo; u32 arithmetic wrapping as in the release build) = the model's index_alpha, for all arguments"},
+        {"name": "C09_fblamka_from_source", "status": "proved", "statement": "fblamka as translated from argon2.rs this run = the model's, for all x, y"},
         {"name": "C09_permutation_from_source", "status": "proved", "statement": "the permutation inside fill_block as TRANSLATED from argon2.rs this run (g closure statements with fblamka / rotation amounts, the eight g calls, the 2 x 8 x 16 index expressions) = the model's fill_block, for all blocks"},
         {"name": "C09_verify_iff", "status": "proved", "statement": "PwHash::verify = Ok iff re-hashing the offered password with the stored salt and config gives exactly the stored bytes (so it accepts the password that produced the hash; rejecting every other password is Argon2 collision resistance)"},
         {"name": "C09_rfc9106_argon2id", "status": "proved", "statement": "TEST (vm_compute): the model reproduces RFC 9106 section 5.3 (t=3, m=32, p=4, secret, associated data)"},
